@@ -85,6 +85,7 @@ FAMILIES = {
     "dispatch": {"module": "Dispatch", "judge": "DispatchTrace"},
     "pipeline": {"module": "MC_PipelineHist", "judge": "PipelineTrace", "by_history": True},
     "genfile": {"module": "GenFile", "judge": "GenFileTrace"},
+    "deepcopy": {"module": "DeepCopy", "judge": "DeepCopyTrace"},
     "runtimedoc": {"module": "MC_RuntimeDoc", "judge": "RuntimeDocTrace"},
     "valuelit": {"module": "ValueLit", "judge": "ValueLitTrace"},
     "typelit": {"module": "TypeLit", "judge": "TypeLitTrace"},
@@ -136,6 +137,34 @@ def check_C16(ctx):
         "the Go compiler and the compiled probe program are the oracle for 'compiles' and 'returns'; the specification computes the expected answers from the source lines the harness wrote",
         "canonical comment text (no leading / trailing blanks); blank doc lines only in the interior of a comment group; field docs do not start with the field's name; embedded fields carry no doc and are exported covered structs",
         "[[embed]] doc references are not generated",
+    ], fails)
+
+
+def check_C17(ctx):
+    t = ctx.tier
+    res = run_family(ctx, "deepcopy", "DeepCopy", ["DeepCopy_gen_%s.cfg" % t], "DeepCopyTrace", rand_n=20 if ctx.quick() else 400, a_cfgs=["DeepCopy_A.cfg"], shard=3000,
+                     exec_timeout=7200)
+    fails = vlib.collect_failures(res["trace"], res["bad"], "deepcopy", only_prefix="C17")
+    tr = res["trace"]
+    cov = {
+        "traces_validated_against_impl": len(tr),
+        "evaluations": len(tr),
+        "distinct_nontrivial": _distinct(tr, lambda r: r["obs"].get("container_paths", 0) > 0 or len(r["case"]["fields"]) > 1, key=lambda r: json.dumps(r["case"], sort_keys=True)),
+        "rule": "Loop A: heap model - for every struct shape of the model (containers at the top level and below one or two levels of by-value nesting) and every mutation path, a copy "
+                "that allocates fresh containers at every depth keeps the original unchanged (TLC; sharing shown when nested containers are assigned). Loop B: every selection of up to the "
+                "tier bound of 15 field kinds (scalar, string, []int, []string, map[string]int, same-package struct by value, two-level nesting, defined scalar, defined map, map of defined "
+                "scalars, error, interface, bare type parameter, field of a generic instantiation, untagged dependency) x variants (package tag, generic root, interfaces tag, type-level "
+                "tag only) is one generated package; the real deepcopy generator runs through gengo twice per package (first-run output vs later run), the module is compiled, and a "
+                "reflective probe fills a value, copies it and reports nil->nil, DeepEqual, the alias relation of every container path and whether any mutation of the copy shows in the "
+                "original. Non-trivial = cases with a container path or several fields.",
+        "exhaustive": True,
+        "probed": sum(1 for r in tr if r["obs"]["ran"]),
+        "container_paths_mutated": sum(r["obs"].get("container_paths", 0) for r in tr),
+        "samples": [{"case": r["case"], "source": r["conc"]["source"][:300], "obs": {k: r["obs"][k] for k in ("stable", "equal", "aliased", "leaked")}} for r in tr[:: max(1, len(tr) // 3)][:3]],
+    }
+    return vlib.finish(ctx, "exploration", cov, [
+        "the compiler and a reflective probe program are the oracle; containers are followed through by-value struct nesting only (interfaces and pointers are outside the no-sharing clause)",
+        "when first-run and later-run output differ, compilation and behaviour are judged on the first run's output",
     ], fails)
 
 
@@ -621,6 +650,7 @@ CHECKS = {
     "C14": check_C14,
     "C15": check_C15,
     "C16": check_C16,
+    "C17": check_C17,
     "C19": check_C19,
     "C20": check_C20,
 }
